@@ -13,6 +13,8 @@ pub mod c02;
 pub mod c03;
 pub mod c05;
 pub mod c12;
+pub mod c13;
+pub mod c14;
 
 use base::api::Registry;
 use base::json::{J, obj};
@@ -22,7 +24,7 @@ use std::time::Instant;
 type CheckFn = fn(&Ctx) -> Outcome;
 
 fn checks() -> Vec<(&'static str, CheckFn)> {
-    vec![("C01", c01::run as CheckFn), ("C02", c02::run as CheckFn), ("C03", c03::run as CheckFn), ("C05", c05::run as CheckFn), ("C12", c12::run as CheckFn)]
+    vec![("C01", c01::run as CheckFn), ("C02", c02::run as CheckFn), ("C03", c03::run as CheckFn), ("C05", c05::run as CheckFn), ("C12", c12::run as CheckFn), ("C13", c13::run as CheckFn), ("C14", c14::run as CheckFn)]
 }
 
 struct Args {
